@@ -21,6 +21,7 @@ func init() {
 		},
 		Run: runC19,
 		Controls: []Control{
+			{Name: "consumed-is-what-was-read", File: "protocols/bgp/packet/path_attributes.go", Old: "\treturn pa, consumed + pa.Length, nil\n", New: "\tconsumed += uint16(0)\n\treturn pa, consumed, nil\n", Expect: "consumed-counts-the-declared-length"},
 			{Name: "next-hop-length-switch-without-default", File: "protocols/bgp/packet/mp_reach_nlri.go", Old: "\tnh, err := bnet.IPFromBytes(variable[:firstNextHopLength])\n\tif err != nil {\n\t\treturn MultiProtocolReachNLRI{}, fmt.Errorf(\"failed to decode next hop IP: %w\", err)\n\t}\n\tn.NextHop = nh.Dedup()\n", New: "\tswitch firstNextHopLength {\n\tcase 4, 16:\n\t\tnh, err := bnet.IPFromBytes(variable[:firstNextHopLength])\n\t\tif err != nil {\n\t\t\treturn MultiProtocolReachNLRI{}, fmt.Errorf(\"failed to decode next hop IP: %w\", err)\n\t\t}\n\t\tn.NextHop = nh.Dedup()\n\t}\n", Expect: "reach-nlri-carries-next-hop"},
 			{Name: "nlri-field-carved-with-next", File: "protocols/bgp/packet/nlri.go", Old: "\tfor p < length {\n\t\tnlri, consumed, err = decodeNLRI(buf, afi, safi, addPath)", New: "\tbuf = bytes.NewBuffer(buf.Next(int(length)))\n\tfor buf.Len() > 0 {\n\t\tnlri, consumed, err = decodeNLRI(buf, afi, safi, addPath)", Expect: "short-reads-are-errors"},
 			{Name: "med-length-not-enforced", File: "protocols/bgp/packet/path_attributes.go", Old: "func (pa *PathAttribute) decodeMED(buf *bytes.Buffer) error {\n\tif pa.Length != 4 {\n\t\treturn fmt.Errorf(\"invalid attribute length %d, expected 4\", pa.Length)\n\t}\n\n\tmed := uint32(0)\n\terr := decode.DecodeUint32(buf, &med)\n\tif err != nil {\n\t\treturn err\n\t}\n\n\tpa.Value = med\n\treturn nil\n}", New: "func (pa *PathAttribute) decodeMED(buf *bytes.Buffer) error {\n\treturn pa.decodeUint32(buf, \"MED\")\n}", Expect: "fixed-size-attribute-length-enforced"},
@@ -41,6 +42,7 @@ func runC19(c *core.Ctx) {
 	fixedSizeAttributes(c)
 	reachCarriesNextHop(c)
 	shortReadsAreErrors(c)
+	consumedCountsTheDeclaredLength(c)
 	const pkt = "protocols/bgp/packet"
 	// (1) prefix length ------------------------------------------------------------------------------
 	if f := c.MustFunc(pkt + ".deserializePrefix"); f != nil {
